@@ -80,6 +80,19 @@ TracePurge == /\ IsEvent("Purge")
               /\ m' = PurgeSpec(m)
               /\ UNCHANGED <<lock, Hz, last>>
 
+\* a space under several ceiling elements of different thickness: the code takes the net height from the first one it
+\* finds (a documented simplification, recorded as a known finding: the indicators then depend on the order of the walls)
+ThickOfWall(x, w) == IF Has(x.wallcons, w.cons) THEN x.wallcons[IdxOf(x.wallcons, w.cons)].thick ELSE 0
+CeilingsOf(x, sid) == { i \in DOMAIN x.walls : \/ (x.walls[i].tilt = "TOP" /\ x.walls[i].space = sid)
+                                                \/ (x.walls[i].tilt = "BOTTOM" /\ x.walls[i].next = sid) }
+SeveralCeilings(x) == \E s \in DOMAIN x.spaces : \E i, j \in CeilingsOf(x, x.spaces[s].id) :
+                         ThickOfWall(x, x.walls[i]) # ThickOfWall(x, x.walls[j])
+
+\* a space with several ground floor slabs of different area: the exposed perimeter and characteristic dimension are
+\* taken from the first one (the code logs a warning; known finding)
+SlabsOf(x, sid) == { i \in DOMAIN x.walls : x.walls[i].space = sid /\ x.walls[i].tilt = "BOTTOM" /\ x.walls[i].bounds = "GROUND" }
+SeveralSlabs(x) == \E s \in DOMAIN x.spaces : \E i, j \in SlabsOf(x, x.spaces[s].id) : x.walls[i].area # x.walls[j].area
+
 Headline(e) == <<e.glob.aref, e.glob.vgross, e.glob.vnet, e.k.K, e.n50.n50, e.n50.n50ref, e.q.q, e.q.Q>>
 Sane(x) == LinksClosed(x) /\ AllUnique(x)
 
@@ -102,6 +115,19 @@ TraceComputeOk ==
   /\ Chk("C10", "FiniteWithoutWindows", (num /\ QWins(x) = {}) => Ev.q.nonfinite = <<>>)
   /\ Chk("C14", "FiniteOnSaneModels", (Ev.sane /\ Sane(x)) => Ev.nonfinite = <<>>)
   /\ Chk("C14", "ResultRoundtripsOnSaneModels", (Ev.sane /\ Sane(x)) => Ev.roundtrips)
+  \* metamorphic consequences stated by the properties: reordering and renaming change nothing; doubling every length
+  \* multiplies areas by 4, volumes by 8 and compactness by 2 (units: K, n50, compactness, q 1e-4; areas, volumes 1e-2)
+  /\ Chk("C08", IF SeveralCeilings(x) THEN "KUnchangedByReorderSeveralCeilings"
+                ELSE IF SeveralSlabs(x) THEN "KUnchangedByReorderSeveralSlabs" ELSE "KUnchangedByReorderAndRename",
+         ("head" \in DOMAIN Ev /\ Ev.head.ok /\ Ev.sane /\ Sane(x)) =>
+            (Ev.reordered.ok /\ Abs(Ev.reordered.K - Ev.head.K) <= 2 /\ Abs(Ev.reordered.n50 - Ev.head.n50) <= 2 + Ev.head.n50 \div 10000
+             /\ Abs(Ev.reordered.aref - Ev.head.aref) <= 1 + Ev.head.aref \div 10000 /\ Abs(Ev.reordered.q - Ev.head.q) <= 2 + Ev.head.q \div 10000))
+  /\ Chk("C11", "ScalingLengthsScalesAreasVolumesCompactness",
+         ("head" \in DOMAIN Ev /\ Ev.head.ok /\ Ev.sane /\ Ev.scaled.ok /\ Ev.head.vgross < 100000000) =>
+            (/\ Abs(Ev.scaled.aref - 4 * Ev.head.aref) <= 4 + Ev.head.aref \div 2000
+             /\ Abs(Ev.scaled.vgross - 8 * Ev.head.vgross) <= 8 + Ev.head.vgross \div 1000
+             /\ Abs(Ev.scaled.vnet - 8 * Ev.head.vnet) <= 8 + Ev.head.vnet \div 1000 + (4 * Ev.head.aref) \div 10
+             /\ Abs(Ev.scaled.compact - 2 * Ev.head.compact) <= 4 + Ev.head.compact \div 1000))
   /\ Chk("C16", "PurgeChangesNoIndicator", (Ev.same_as_last /\ last # <<>>) => Headline(Ev) = last)
   /\ last' = Headline(Ev)
 
